@@ -133,6 +133,8 @@ impl<'ast> Visit<'ast> for R {
             self.out.push(".probe".into());
         } else if f == "insert_string" {
             self.out.push(".tableInsert".into());
+        } else if crate::hashes::is_hash_helper(&f) {
+            self.out.push(".hashOne".into());
         }
     }
     fn visit_expr_assign(&mut self, a: &'ast syn::ExprAssign) {
@@ -167,6 +169,72 @@ fn rodeo_effects(file: &syn::File, name: &str) -> Vec<String> {
 
 /// Body shapes of the small functions the model mirrors literally: `clear` (what is cleared, in which
 /// order) and the three conversions (which fields move where).
+///
+/// Locals are resolved, not matched by name: a destructuring `let Self { a, b: x, c: _, .. } = self;`
+/// binds names to fields, `let x = <field>;` and `let x = AnyArena::Arena(<field>);` are aliases (the
+/// wrapping is checked by rustc: the constructors take an `AnyArena`), and `self.<field>` is the field.
+struct Fields {
+    env: Vec<(String, String)>,
+}
+
+fn field_lean(f: &str) -> Option<&'static str> {
+    match f {
+        "map" => Some(".map"),
+        "hasher" => Some(".hasher"),
+        "strings" => Some(".strings"),
+        "arena" | "__arena" => Some(".arena"),
+        _ => None,
+    }
+}
+
+impl Fields {
+    /// the field an expression denotes, if it is nothing but a field of `self`
+    fn resolve(&self, e: &syn::Expr) -> Option<&'static str> {
+        match e {
+            syn::Expr::Paren(p) => self.resolve(&p.expr),
+            syn::Expr::Group(g) => self.resolve(&g.expr),
+            syn::Expr::Path(p) if p.path.segments.len() == 1 && p.qself.is_none() => {
+                let id = p.path.segments[0].ident.to_string();
+                self.env.iter().rev().find(|(n, _)| *n == id).and_then(|(_, f)| field_lean(f))
+            }
+            syn::Expr::Field(f) if squash(&toks(&*f.base)) == "self" => field_lean(&squash(&toks(&f.member))),
+            syn::Expr::Call(c) if squash(&toks(&*c.func)) == "AnyArena::Arena" && c.args.len() == 1 => match self.resolve(&c.args[0]) {
+                Some(".arena") => Some(".arena"),
+                _ => None,
+            },
+            _ => None,
+        }
+    }
+    /// `let <Ty> { .. } = self;` / `let x = <field expr>;`  ->  true when understood
+    fn bind(&mut self, l: &syn::Local) -> bool {
+        let Some(init) = &l.init else { return false };
+        if init.diverge.is_some() {
+            return false;
+        }
+        match &l.pat {
+            syn::Pat::Struct(ps) if squash(&toks(&*init.expr)) == "self" => {
+                for fp in &ps.fields {
+                    let member = squash(&toks(&fp.member));
+                    match &*fp.pat {
+                        syn::Pat::Ident(pi) if pi.subpat.is_none() && pi.by_ref.is_none() => self.env.push((pi.ident.to_string(), member)),
+                        syn::Pat::Wild(_) => {}
+                        _ => return false,
+                    }
+                }
+                true
+            }
+            syn::Pat::Ident(pi) if pi.subpat.is_none() && pi.by_ref.is_none() => match self.resolve(&init.expr) {
+                Some(f) => {
+                    self.env.push((pi.ident.to_string(), f.trim_start_matches('.').to_string()));
+                    true
+                }
+                None => false,
+            },
+            _ => false,
+        }
+    }
+}
+
 fn body_shape(path: &Path, ty_prefix: &str, name: &str) -> String {
     if !path.exists() {
         return "(.other \"file missing\")".into();
@@ -182,36 +250,64 @@ fn body_shape(path: &Path, ty_prefix: &str, name: &str) -> String {
                     if f.sig.ident != name {
                         continue;
                     }
-                    let stmts: Vec<String> = f.block.stmts.iter().map(|s| squash(&toks(s))).collect();
-                    // clear: a sequence of `self.<field>.clear();`
+                    let whole = || format!("(.other {})", lean::s(&f.block.stmts.iter().map(|s| squash(&toks(s))).collect::<Vec<_>>().join(" ")));
+                    let mut env = Fields { env: Vec::new() };
                     if name == "clear" {
+                        // bindings, then a sequence of `<field>.clear();`
                         let mut fields = Vec::new();
-                        for s in &stmts {
-                            let f = match s.as_str() {
-                                "self.map.clear();" => ".map",
-                                "self.strings.clear();" => ".strings",
-                                "self.arena.clear();" => ".arena",
-                                _ => return format!("(.other {})", lean::s(s)),
-                            };
-                            fields.push(f.to_string());
+                        for st in &f.block.stmts {
+                            match st {
+                                syn::Stmt::Local(l) => {
+                                    if !env.bind(l) {
+                                        return whole();
+                                    }
+                                }
+                                syn::Stmt::Expr(syn::Expr::MethodCall(m), Some(_)) if m.method == "clear" && m.args.is_empty() => match env.resolve(&m.receiver) {
+                                    Some(fl) => fields.push(fl.to_string()),
+                                    None => return whole(),
+                                },
+                                _ => return whole(),
+                            }
                         }
                         return format!("(.clears {})", lean::list_inline(&fields));
                     }
-                    // conversions: one destructuring `let` of self, then `unsafe { X::new(args) }`
-                    if stmts.len() == 2 && stmts[0].starts_with("let") && stmts[0].ends_with("=self;") {
-                        let ctor = &stmts[1];
-                        let known = [
-                            ("unsafe{RodeoReader::new(map,hasher,strings,AnyArena::Arena(arena))}", "(.readerNew [.map, .hasher, .strings, .arena])"),
-                            ("unsafe{RodeoResolver::new(strings,AnyArena::Arena(arena))}", "(.resolverNew [.strings, .arena])"),
-                            ("unsafe{RodeoResolver::new(strings,__arena)}", "(.resolverNew [.strings, .arena])"),
-                        ];
-                        for (pat, shape) in known {
-                            if ctor == pat {
-                                return format!("(.moves {shape})");
+                    // conversions: bindings, then `unsafe { X::new(args) }` (or without `unsafe`)
+                    let n = f.block.stmts.len();
+                    for (i, st) in f.block.stmts.iter().enumerate() {
+                        match st {
+                            syn::Stmt::Local(l) if i + 1 < n => {
+                                if !env.bind(l) {
+                                    return whole();
+                                }
                             }
+                            syn::Stmt::Expr(e, None) if i + 1 == n => {
+                                let mut e = e;
+                                if let syn::Expr::Unsafe(u) = e {
+                                    if u.block.stmts.len() != 1 {
+                                        return whole();
+                                    }
+                                    let syn::Stmt::Expr(inner, None) = &u.block.stmts[0] else { return whole() };
+                                    e = inner;
+                                }
+                                let syn::Expr::Call(c) = e else { return whole() };
+                                let ctor = match squash(&toks(&*c.func)).as_str() {
+                                    "RodeoReader::new" => ".readerNew",
+                                    "RodeoResolver::new" => ".resolverNew",
+                                    _ => return whole(),
+                                };
+                                let mut args = Vec::new();
+                                for a in &c.args {
+                                    match env.resolve(a) {
+                                        Some(fl) => args.push(fl.to_string()),
+                                        None => return whole(),
+                                    }
+                                }
+                                return format!("(.moves ({ctor} {}))", lean::list_inline(&args));
+                            }
+                            _ => return whole(),
                         }
                     }
-                    return format!("(.other {})", lean::s(&stmts.join(" ")));
+                    return whole();
                 }
             }
         }
